@@ -8,6 +8,7 @@ import DTML.Parse
 import DTML.Render
 import DTML.Lemmas.Fuel
 import DTML.Lemmas.Print
+import DTML.Lemmas.ScanGen
 set_option linter.unusedVariables false
 namespace DTML.Props.C01
 open DTML.Scan DTML.Parse
@@ -543,5 +544,25 @@ end Compose
 
 /-- the first literal of a source is never touched -/
 theorem adj_false (l : Text) : adj false l = l := rfl
+
+/-! ### The scanner of the model is the scanner of the source
+
+`GenScan.candidateGen` / `GenScan.searchGen` are regenerated on every run by translating `dtml_re_class.search` in /repo
+statement by statement (harness/trans_scan.py: the branches over the opening marker, the inner loop over `>` with the
+quote-parity test, the entity branch, `name_match` and the cutting of name and arguments, the outer loop over
+`start_search`).  They compute `Scan.candidate` / `Scan.scanHtml`, the functions every theorem above (and the token
+theorems of C06 / C07) is stated about - for every text, at every offset. -/
+
+/-- what stands at offset `s`: the translated loop body is the model's `candidate` on the text from `s` on -/
+theorem gen_html_scanner_candidate_is_model (text : Text) (s : Nat) :
+    GenScan.candidateGen text (s : Int) = candidate (text.drop s) :=
+  Lemmas.ScanGen.candidateGen_eq text s
+
+/-- one `search(text, start)`: the translated loop finds the tag `scanHtml` finds in the text from `start` on, at the
+offset `start +` the length of the literal before it (`len(text) + 1` rounds always suffice) -/
+theorem gen_html_scanner_search_is_model (text : Text) (start : Nat) :
+    GenScan.searchGen text (text.length + 1) start =
+      (scanHtml (text.drop start)).map (fun r => (start + r.1.length, r.2.1)) :=
+  Lemmas.ScanGen.searchGen_eq text (text.length + 1) start (by omega)
 
 end DTML.Props.C01
